@@ -27,6 +27,7 @@ import (
 	"seehuhn.de/go/sfnt/cmap"
 	"seehuhn.de/go/sfnt/glyf"
 	"seehuhn.de/go/sfnt/glyph"
+	"seehuhn.de/go/sfnt/mac"
 	"seehuhn.de/go/sfnt/maxp"
 	"seehuhn.de/go/sfnt/opentype/coverage"
 	"seehuhn.de/go/sfnt/opentype/gtab"
@@ -477,7 +478,7 @@ var (
 )
 
 func subEncodeCmap(m subCmap, st cmap.Subtable, lang uint16) []byte {
-	key := fmt.Sprintf("%d.%d:%s", m.f, lang, subShowPairs(m.ents))
+	key := fmt.Sprintf("%d.%d.%d:%s", m.p, m.f, lang, subShowPairs(m.ents))
 	subCmapCacheMu.Lock()
 	data, ok := subCmapCache[key]
 	subCmapCacheMu.Unlock()
@@ -573,7 +574,13 @@ func subBuild(sf *subFont) *subBuilt {
 			case 4:
 				t := cmap.Format4{}
 				for _, e := range m.ents {
-					t[uint16(e[0])] = glyph.ID(e[1])
+					code := e[0]
+					if m.p == 1 {
+						// Macintosh platform: the line gives the character as the library reads
+						// it (Unicode); the table stores its Mac Roman byte.
+						code = int(mac.Encode(string(rune(code)))[0])
+					}
+					t[uint16(code)] = glyph.ID(e[1])
 				}
 				st = t
 			case 12:
@@ -674,18 +681,37 @@ func subRenderSt(st gtab.Subtable) string {
 		if t == nil {
 			return "x"
 		}
-		var ents [][2]int
-		for from, idx := range t.Cov {
-			ents = append(ents, [2]int{int(from), int(t.SubstituteGlyphIDs[idx])})
+		// Entries are listed in COVERAGE-INDEX order (the model lists them by glyph id): the
+		// two agree iff the coverage indices are 0..n-1 and increase with the glyph id, which is
+		// what a valid coverage table requires.
+		ents := make([][2]int, len(t.Cov))
+		seen := make([]bool, len(t.Cov))
+		if len(t.SubstituteGlyphIDs) != len(t.Cov) {
+			return "x"
 		}
-		sort.Slice(ents, func(a, b int) bool { return ents[a][0] < ents[b][0] })
+		for from, idx := range t.Cov {
+			if idx < 0 || idx >= len(ents) || seen[idx] {
+				return "x"
+			}
+			seen[idx] = true
+			ents[idx] = [2]int{int(from), int(t.SubstituteGlyphIDs[idx])}
+		}
 		return "m" + subShowPairs(ents)
 	case *gtab.Gsub4_1:
 		if t == nil {
 			return "x"
 		}
 		out := subSt{typ: 'l'}
+		if len(t.Repl) != len(t.Cov) {
+			return "x"
+		}
+		out.ents = make([]subLigEntry, len(t.Cov))
+		seenL := make([]bool, len(t.Cov))
 		for first, idx := range t.Cov {
+			if idx < 0 || idx >= len(out.ents) || seenL[idx] {
+				return "x"
+			}
+			seenL[idx] = true
 			e := subLigEntry{first: int(first)}
 			for _, lg := range t.Repl[idx] {
 				in := make([]int, len(lg.In))
@@ -694,9 +720,8 @@ func subRenderSt(st gtab.Subtable) string {
 				}
 				e.ligs = append(e.ligs, subLig{in: in, out: int(lg.Out)})
 			}
-			out.ents = append(out.ents, e)
+			out.ents[idx] = e // coverage-index order, see above
 		}
-		sort.Slice(out.ents, func(a, b int) bool { return out.ents[a].first < out.ents[b].first })
 		return subShowSt(out)
 	case gtab.Gpos2_1:
 		if t == nil {
@@ -875,6 +900,42 @@ func subParseCase(f Fields) (sf *subFont, glyphs []glyph.ID, ok bool) {
 	return sf, glyphs, out == ""
 }
 
+// subOpCffRun drives (*cff.Outlines).Subset (cff/subset.go) directly: the outlines of the font of
+// the case line are subsetted to the glyph list and rendered like a Font.Subset result without
+// cmap and layout tables.  There is no closure here, so the result does not depend on any order.
+func subOpCffRun(f Fields) string {
+	sf, glyphs, ok := subParseCase(f)
+	if !ok {
+		return "panic"
+	}
+	var b *subBuilt
+	var res *sfnt.Font
+	out := guard(func() string {
+		b = subBuild(sf)
+		o, isCFF := b.font.Outlines.(*cff.Outlines)
+		if !isCFF {
+			return "not-cff"
+		}
+		res = &sfnt.Font{Outlines: o.Subset(glyphs)}
+		return ""
+	})
+	if out == "not-cff" {
+		return out
+	}
+	if out != "" {
+		return "panic"
+	}
+	var R string
+	out = guard(func() string {
+		_, R = subRender(b, res)
+		return ""
+	})
+	if out != "" {
+		return "render-" + out
+	}
+	return R
+}
+
 const subMaxTries = 5000
 
 // subMaxSearch bounds the search for the recorded order in wall-clock time (the harness gives up
@@ -976,6 +1037,7 @@ func init() {
 	ops["subset.run"] = subOpRun
 	ops["subset.check"] = func(f Fields) string { return "ok" }
 	ops["subset.writable"] = subOpWritable
+	ops["subset.cffrun"] = subOpCffRun
 	ops["subset.mustwrite"] = subOpWritable // D replay op: the property claims every subset can be written
 }
 
@@ -999,8 +1061,9 @@ var subCmapKeys = []subCmap{
 	{p: 3, e: 1, l: 0, f: 4},
 	{p: 3, e: 10, l: 0, f: 12},
 	{p: 0, e: 4, l: 0, f: 12},
-	// (1,0,0) is not used: cmap.Table.Get translates the codes of Macintosh subtables through
-	// Mac Roman, Subset re-encodes the translated codes under the same key
+	// Macintosh platform: cmap.Table.Get translates the codes through Mac Roman; the case line
+	// gives the codes as Get reports them (Unicode), the table stores the Mac Roman bytes.
+	{p: 1, e: 0, l: 0, f: 4},
 }
 
 // subGenComposites draws an acyclic composite structure; it returns the definitions (sorted by
@@ -1110,6 +1173,9 @@ func subGenCmaps(r *Rng, sf *subFont) {
 		return
 	}
 	k := r.Intn(4)
+	if r.Chance(1, 8) {
+		k = 4
+	}
 	idx := subPerm(r, len(subCmapKeys))[:k]
 	sort.Ints(idx)
 	for _, i := range idx {
@@ -1125,6 +1191,16 @@ func subGenCmaps(r *Rng, sf *subFont) {
 		base := 0x20 + r.Intn(0x60)
 		for len(m.ents) < cnt {
 			var code int
+			if m.p == 1 {
+				// any Mac Roman byte, as the Unicode character it stands for
+				code = int(mac.DecodeOne(byte(r.Range(0x20, 0xFF))))
+				if seen[code] {
+					continue
+				}
+				seen[code] = true
+				m.ents = append(m.ents, [2]int{code, r.Range(1, sf.n-1)})
+				continue
+			}
 			switch r.Intn(4) {
 			case 0:
 				code = base + r.Intn(40) // dense cluster
@@ -1649,6 +1725,10 @@ func areaSubset(c *Ctx) {
 			}
 			res := c.Case(kind, "subset.check", fontArgs+glyphsArg+" res="+R, nontrivial)
 			c.Stat("check_outcome", kind+":"+res)
+		}
+		if sf.kind != "ttf" && i%2 == 0 {
+			cr := c.Case(Verdict, "subset.cffrun", fontArgs+glyphsArg, nontrivial)
+			c.Stat("cffrun_outcome", subClass(cr))
 		}
 		// (a CID-keyed font without GIDToCID cannot be written: cff.Write panics in encodeCharset)
 		if i%4 == 0 && !(sf.kind == "cid" && sf.cidNil) {
